@@ -47,8 +47,13 @@ def judge(c, a, m):
         return r
     # C01 is about rows; the order of columns is C05's business: align the model's columns to the result by name
     r["column_order_differs"] = False
-    if names != c.columns and sorted(names) == sorted(c.columns) and len(set(names)) == len(names):
-        perm = [c.columns.index(n) for n in names]
+    if names != c.columns and sorted(names) == sorted(c.columns):
+        # same-named columns are matched in order of appearance (the k-th `k` of the result is the k-th `k` of the frame)
+        used, perm = set(), []
+        for n in names:
+            i = next(j for j, e in enumerate(c.columns) if e == n and j not in used)
+            used.add(i)
+            perm.append(i)
         mrows = [[row[i] for i in perm] for row in mrows]
         r["column_order_differs"] = True
     if flags["ambig"] or (stripped and not getattr(c, "set_compare", False)):
@@ -175,8 +180,12 @@ def window_defect_variant(c, r):
             continue
         _, mrows = pm
         names = r.get("names") or []
-        if names != c.columns and sorted(names) == sorted(c.columns) and len(set(names)) == len(names):
-            perm = [c.columns.index(n) for n in names]
+        if names != c.columns and sorted(names) == sorted(c.columns):
+            used, perm = set(), []
+            for n in names:
+                i = next(j for j, e in enumerate(c.columns) if e == n and j not in used)
+                used.add(i)
+                perm.append(i)
             mrows = [[row[i] for i in perm] for row in mrows]
         ok = (r["rows"] == mrows) if r.get("mode") == "seq" else (relgen.canon_rows(r["rows"]) == relgen.canon_rows(mrows))
         if ok:
